@@ -21,7 +21,7 @@ def child : Path → Nat → Path
   | deep f k ds, j => deep f k (ds ++ [j])
 
 theorem fan_world : fan (res world) = 12 := by decide
-theorem fan_face (f : Nat) : fan (res (face f)) = 5 := by decide
+theorem fan_face (f : Nat) : fan (res (face f)) = 5 := Eq.trans rfl rfl
 theorem fan_deep (f k : Nat) (ds : List Nat) : fan (res (deep f k ds)) = 4 := by
   rw [res_deep]; simp only [fan]; rw [if_neg (by omega), if_neg (by omega)]
 
@@ -310,5 +310,90 @@ theorem enc_children_order_face (f : Nat) :
   constructor
   · intro h; subst h; omega
   · intro h; omega
+
+theorem child_inj (p : Path) (j j' : Nat) (h : child p j = child p j') : j = j' := by
+  cases p with
+  | world => simp only [child] at h; injection h
+  | face f => simp only [child] at h; injection h
+  | deep f k ds =>
+    simp only [child] at h
+    injection h with _ _ h
+    have := List.append_cancel_left h
+    injection this
+
+/-! ### the interval of a face, faces versus blocks, extreme leaves -/
+
+/-- among cells of resolution ≥ 1 the subtree of a face is the id interval `[lo, hi]` as well -/
+theorem face_interval (f : Nat) (q : Path) (hq : WF q) (hq1 : 1 ≤ res q) :
+    ancestorAt q 0 = face f ↔ (lo (face f) ≤ enc q ∧ enc q ≤ hi (face f)) := by
+  obtain ⟨f', k', es, rfl⟩ := exists_deep_of_res hq1
+  obtain ⟨_, hk', hd', hl'⟩ := hq
+  have hq58 := tail_bounds 0 es hd' (by omega)
+  rw [Nat.zero_add, W_zero] at hq58
+  have ha : ancestorAt (deep f' k' es) 0 = face f' := by simp [ancestorAt]
+  rw [ha, enc_deep]
+  simp only [lo, hi]
+  constructor
+  · intro h; injection h with h; subst h; omega
+  · intro h
+    have : f' = f := by omega
+    rw [this]
+
+/-- a base cell never lies in the interval of a cell of resolution ≥ 2 -/
+theorem face_not_in_block (f k : Nat) (ds : List Nat) (hp : WF (deep f k ds)) (h1 : 1 ≤ ds.length) (f' : Nat) :
+    ¬ (lo (deep f k ds) ≤ enc (face f') ∧ enc (face f') ≤ hi (deep f k ds)) := by
+  obtain ⟨_, _, hd, hl⟩ := hp
+  rintro ⟨h2, h3⟩
+  simp only [lo, hi, blockBase] at h2 h3
+  rw [enc_face] at h2 h3
+  have hW := four_le_W ds.length hl
+  have hp58 := value_mul_W_le ds hd (by omega)
+  have hT : 5 * f + k = f' := by omega
+  subst hT
+  -- 2^57 = 2·W 1 is a multiple of W |ds|
+  have hc := W_add 1 (ds.length - 1) (by omega)
+  have e1 : 1 + (ds.length - 1) = ds.length := by omega
+  rw [e1] at hc
+  have h57 : 2 ^ 57 = (2 * 4 ^ (ds.length - 1)) * W ds.length := by
+    rw [Nat.mul_assoc, ← hc]; exact Eq.trans rfl rfl
+  have a1 : value ds * W ds.length < (2 * 4 ^ (ds.length - 1)) * W ds.length := by omega
+  have a2 : (2 * 4 ^ (ds.length - 1)) * W ds.length < (value ds + 1) * W ds.length := by
+    rw [Nat.add_mul, Nat.one_mul]; omega
+  have := Nat.lt_of_mul_lt_mul_right a1
+  have := Nat.lt_of_mul_lt_mul_right a2
+  omega
+
+theorem value_replicate_zero (m : Nat) : value (List.replicate m 0) = 0 := by
+  induction m with
+  | zero => rfl
+  | succ m ih => rw [List.replicate_succ, value_cons, ih]; simp
+
+theorem value_replicate_three (m : Nat) : value (List.replicate m 3) + 1 = 4 ^ m := by
+  induction m with
+  | zero => rfl
+  | succ m ih => rw [List.replicate_succ, value_cons, List.length_replicate, Nat.pow_succ]; omega
+
+theorem mark_28 : mark 28 = 2 := Eq.trans rfl rfl
+theorem W_28 : W 28 = 4 := Eq.trans rfl rfl
+
+/-- `lo` is attained: it is the id of the resolution-29 descendant with all further digits 0 -/
+theorem lo_attained (f k : Nat) (ds : List Nat) (hl : ds.length ≤ 28) :
+    enc (deep f k (ds ++ List.replicate (28 - ds.length) 0)) = lo (deep f k ds) := by
+  rw [enc_append f k ds _ (by rw [List.length_replicate]; omega), value_replicate_zero, List.length_replicate]
+  have : ds.length + (28 - ds.length) = 28 := by omega
+  rw [this, mark_28]
+  simp only [lo]; omega
+
+/-- `hi` is attained: it is the id of the resolution-29 descendant with all further digits 3 -/
+theorem hi_attained (f k : Nat) (ds : List Nat) (hl : ds.length ≤ 28) :
+    enc (deep f k (ds ++ List.replicate (28 - ds.length) 3)) = hi (deep f k ds) := by
+  rw [enc_append f k ds _ (by rw [List.length_replicate]; omega), List.length_replicate]
+  have e : ds.length + (28 - ds.length) = 28 := by omega
+  have h1 := value_replicate_three (28 - ds.length)
+  have h2 := W_add ds.length (28 - ds.length) (by omega)
+  rw [e] at h2 ⊢
+  rw [mark_28, W_28]
+  rw [W_28, ← h1, Nat.add_mul] at h2
+  simp only [hi]; omega
 
 end A5.Order
